@@ -13,22 +13,22 @@ From Coq Require Import Sorted.
     each method is a total function, matching the repaired Set.) *)
 Theorem C18_fields_refine_multimap :
   forall (uni_lower : bytes -> bytes) (ops : list fop) (l : fields),
-    frun uni_lower l ops = srun uni_lower l ops.
-Proof. exact fields_refine. Qed.
+    frun field_table uni_lower l ops = srun field_table uni_lower l ops.
+Proof. exact (fields_refine field_table). Qed.
 Print Assumptions C18_fields_refine_multimap.
 
 Theorem C18_normalize_idempotent :
-  forall uni_lower n, normalize_name uni_lower (normalize_name uni_lower n) = normalize_name uni_lower n.
-Proof. exact normalize_idem. Qed.
+  forall uni_lower n, normalize_name field_table uni_lower (normalize_name field_table uni_lower n) = normalize_name field_table uni_lower n.
+Proof. exact (normalize_idem field_table gen_table_ok). Qed.
 Print Assumptions C18_normalize_idempotent.
 
 (** names in any letter case: for RFC 7230 token names and for every known WARC field *)
 Theorem C18_normalize_case_insensitive :
   forall uni_lower a b,
     all_ascii a = true -> all_ascii b = true -> ascii_lower a = ascii_lower b ->
-    (forallb is_tchar a = true \/ lookup_def (ascii_lower a) <> None) ->
-    normalize_name uni_lower a = normalize_name uni_lower b.
-Proof. exact normalize_case_insensitive. Qed.
+    (forallb is_tchar a = true \/ lookup_def field_table (ascii_lower a) <> None) ->
+    normalize_name field_table uni_lower a = normalize_name field_table uni_lower b.
+Proof. exact (normalize_case_insensitive field_table). Qed.
 Print Assumptions C18_normalize_case_insensitive.
 
 (** Set leaves exactly one value at the position of the first occurrence; nothing else moves *)
@@ -79,5 +79,5 @@ Print Assumptions C18_itoa_atoi.
 Example C18_nontrivial_history :
   let ops := [FAdd [98] [49]; FAdd [65] [50]; FAdd [97] [51]; FAdd [66] [52]; FSet [97] [57];
               FSort; FDelete [98]; FGetAll [97]] in
-  fst (frun (fun s => s) [] ops) = [ONone; ONone; ONone; ONone; ONone; ONone; ONone; OList [[57]]].
+  fst (frun field_table (fun s => s) [] ops) = [ONone; ONone; ONone; ONone; ONone; ONone; ONone; OList [[57]]].
 Proof. vm_compute. reflexivity. Qed.
